@@ -120,11 +120,13 @@ type obs struct {
 	panicked       any
 	returned       bool
 	ctxErrAtReturn error
+	// ids of the controlled threads that run the generator / the reducer (-1: never started); see shape.go
+	genTID, redTID int
 }
 
 func scenario(s spec) vx.Scenario {
 	body := func() {
-		o := &obs{}
+		o := &obs{genTID: -1, redTID: -1}
 		vsched.SetUser(o)
 		var ctx context.Context = context.Background()
 		var cancelCtx context.CancelFunc
@@ -198,6 +200,7 @@ func scenario(s spec) vx.Scenario {
 			})
 		}
 		generate := func(src chan<- int) {
+			o.genTID = vsched.ThreadID()
 			for i := 0; i <= s.N; i++ {
 				if s.GenStall != "" && i == s.GenStallAt {
 					vsched.Log("stall-begin generator")
@@ -268,6 +271,7 @@ func scenario(s spec) vx.Scenario {
 			mapBody(i, func(v int) { w.Write(v) }, cancel)
 		}
 		reducer := func(pipe <-chan int, w mr.Writer[int], cancel func(error)) {
+			o.redTID = vsched.ThreadID()
 			sum, n := 0, 0
 			wrote := false
 			// the one write of the reducer; whether the context had ALREADY ended when the write
@@ -421,6 +425,16 @@ func scenario(s spec) vx.Scenario {
 	}
 	check := func(e *vsched.Exec) vx.Verdict {
 		o, _ := e.User.(*obs)
+		if e.Outcome == "deadlock" && !e.Traced() {
+			// The cause of a deadlock is WHO is parked WHERE, and the call sites are only captured in
+			// trace mode: re-execute the same schedule traced and judge that execution, so that the
+			// explorer de-duplicates failures by cause and not by the coarser site-less shape (two
+			// different causes in one scenario often park the same threads in the same kind of operation)
+			if et := vsched.Replay(e.Choices(), body, 0); et.Outcome == e.Outcome && len(et.Log()) == len(e.Log()) {
+				ot, _ := et.User.(*obs)
+				return judge(s, et, ot)
+			}
+		}
 		return judge(s, e, o)
 	}
 	w := 1 + s.N*s.W
@@ -456,10 +470,11 @@ func judge(s spec, e *vsched.Exec, o *obs) vx.Verdict {
 	switch e.Outcome {
 	case "ok":
 	case "deadlock":
-		// cause key: with call sites captured (replay of the failure) the root cause is named by
-		// the stuck operation that nobody will ever serve; the other blocked threads wait for it.
-		// Everything the log proves about the cause is part of the key in BOTH modes (the explorer
-		// de-duplicates failures by the key computed without call sites).
+		// cause key: with call sites captured the root cause is named by the stuck operation that
+		// nobody will ever serve and by WHICH goroutine of the call is parked WHERE (shape.go). Every
+		// deadlocked execution is re-executed traced before it gets here (see the scenario's check),
+		// so the explorer de-duplicates failures by this key; the site-less branch below is only the
+		// fallback for an execution that could not be re-executed.
 		kind, what := "caller-deadlock", "the call never returns: "
 		if o != nil && o.returned {
 			kind, what = "leak", "the call returned but threads it started never exit: "
@@ -524,16 +539,47 @@ func judge(s spec, e *vsched.Exec, o *obs) vx.Verdict {
 				}
 			}
 		}
+		// WHO of the call is parked WHERE (shape.go): a blocked-site set that the shutdown protocol of
+		// the pinned code cannot produce, or that is not the chain of waits of the listed class with
+		// the same caller site, is a different cause and gets the sites of the call-internal
+		// goroutines into its key
+		sh := shapeOf(e, o)
+		tag, breach := protocolBreach(s, sh, log)
+		if tag != "" {
+			tag = "dispatcher:" + sh.dispatcher + ";" + tag
+		}
 		if !panicStuck && kind == "caller-deadlock" && stalled != "" {
 			// the call waits for a user function that is stalled until the call returns: the cause is
-			// WHERE the caller waits and WHO is stalled, not the incidental set of other waiters
+			// WHERE the caller waits and WHO is stalled, and through which goroutines of the call the
+			// one waits for the other
 			key = "{caller:" + mainAt + ";stalled:" + stalled
 			if strings.Contains(mainAt, "mapReduceWithPanicChan.func") && idx("rw-end") >= 0 {
 				// the caller is in its deferred range over output: with the reducer's write behind it
 				// (it holds the result) or without (it left the select for another reason)
 				key += ";reducer-write-returned"
 			}
+			if tag == "" {
+				if breach = classBreach(s, key, sh, log); breach != "" {
+					tag = sh.internal()
+				}
+			}
+			if tag != "" {
+				key += ";" + tag
+			}
 			key += "}" + late
+		} else if tag != "" && (panicStuck || strings.HasPrefix(key, ":")) {
+			key += "{" + tag + "}"
+		} else if panicStuck && kind == "caller-deadlock" && !strings.HasPrefix(mainAt, "select@") &&
+			mainAt != inDrain && mainAt != callerDeferred {
+			// the listed class: the caller has LEFT its select and waits in drain(output) / drain(source)
+			// or in its deferred range over output; anywhere else is another cause
+			key += "{caller:" + mainAt + "}"
+		}
+		if breach != "" {
+			what = breach + "; " + what
+		}
+		if os.Getenv("VERIF_C10_SHAPES") != "" { // development aid: every shape is its own class
+			key += " || caller:" + sh.caller + ";generator:" + sh.generator + ";" + sh.internal()
 		}
 		return vx.Verdict{Class: kind + key, Msg: what + strings.Join(e.Blocked(), " "), Sig: kind}
 	case "crash":
@@ -1200,6 +1246,79 @@ func main() {
 			{Entry: "MapReduce", N: 2, W: 2, Fan: 1, GenPanic: -1, GenStall: "held", GenStallAt: 1, MapFault: "panic", MapAt: 0},
 		} {
 			add(s)
+		}
+		// a user function PANICS while the generator still has items and is stalled / slow (session 5).
+		// held: the generator goes on only after the call has come back, so the call has to re-raise
+		// the panic without it - the dispatcher's shutdown may wait for the source only after it has
+		// closed the collector (the reducer, hence finish(), hence the caller's drain(output) depend on
+		// that). With ONE worker and the panic at least two items before the stall (mapper j panics,
+		// the generator stalls before item k >= j+2) the failure flag is set before the dispatcher gets
+		// the pool slot back, it takes item j+1 - which the generator still delivers - and sees the flag
+		// before it asks for the next one: the pinned code re-raises in EVERY interleaving, any deadlock
+		// there is a violation. With j = k-1, or two workers, the dispatcher can be parked on its
+		// receive from the source when the panic comes (the listed wait of the caller in mr.drain
+		// behind a stalled generator); the other interleavings of those members have to come back.
+		// Through every entry point that has a generator and a mapper.
+		{
+			type hm struct{ n, w, k, j int }
+			clean := []hm{{3, 1, 2, 0}, {2, 1, 2, 0}} // k == n: all items delivered, the generator stalls before it returns
+			mixed := []hm{{3, 2, 2, 0}, {3, 1, 2, 1}, {2, 1, 1, 0}}
+			if thorough {
+				clean = append(clean, hm{3, 1, 3, 0}, hm{3, 1, 3, 1})
+				mixed = append(mixed, hm{3, 2, 3, 0}, hm{3, 2, 3, 1}, hm{3, 2, 2, 1}, hm{3, 2, 1, 0}, hm{3, 1, 3, 2})
+			}
+			for _, en := range []string{"MapReduce", "MapReduceVoid", "MapReduceChan", "ForEach"} {
+				for i, m := range append(append([]hm(nil), clean...), mixed...) {
+					if !thorough && en != "MapReduce" && i != 0 {
+						continue // quick tier: the whole menu through MapReduce, the first clean member through the others
+					}
+					s := base
+					s.Entry, s.N, s.W, s.Fan = en, m.n, m.w, 1
+					s.GenStall, s.GenStallAt, s.MapFault, s.MapAt = "held", m.k, "panic", m.j
+					addNew(s)
+				}
+			}
+			// slow: the generator goes on at a moment the explorer chooses (before / after the panic or
+			// the cancel was taken, after the call returned): every fault kind with items left behind it
+			for _, en := range []string{"MapReduce", "MapReduceVoid", "MapReduceChan", "ForEach"} {
+				for _, f := range []string{"map:panic", "red:panic", "map:cancel-err", "red:cancel"} {
+					if en == "ForEach" && f != "map:panic" {
+						continue
+					}
+					if !thorough && en != "MapReduce" && f != "map:panic" {
+						continue
+					}
+					for _, w := range []int{1, 2} {
+						if w == 2 && !(thorough && en == "MapReduce") {
+							continue
+						}
+						s := base
+						s.Entry, s.N, s.W, s.Fan, s.GenStall, s.GenStallAt = en, 3, w, 1, "slow", 2
+						switch f {
+						case "map:panic":
+							s.MapFault, s.MapAt = "panic", 0
+						case "map:cancel-err":
+							s.MapFault, s.MapAt = "cancel-err", 0
+						case "red:panic":
+							s.Reducer = "panic"
+						case "red:cancel":
+							s.Reducer = "cancel"
+						}
+						if !thorough || w == 2 {
+							// quick tier, and two workers in the thorough tier: the release at every blocking
+							// point of the others, no preemption (with one preemption a one-worker member has
+							// 2-3·10^5 executions - thorough tier - and a two-worker member 2-4·10^6) ...
+							s.bound = &vx.Bounds{P: 0, T: 0}
+						}
+						addNew(s)
+						if w == 1 && en == "MapReduce" && strings.HasSuffix(f, "panic") {
+							// ... and with one preemption on the two-item instance (one item left)
+							s.N, s.GenStallAt, s.bound = 2, 1, nil
+							addNew(s)
+						}
+					}
+				}
+			}
 		}
 		// a cancel that is BLOCKED (parked in drain(source) behind a generator asleep on the virtual
 		// clock for 2h) while the reducer, asleep for 1h, delivers its output at global quiescence;
